@@ -256,6 +256,29 @@ fn pure_ops(c: &mut Ctx) {
         c.judge_i("Duration::from_log_interval", json!([n]), run_i(|| Duration::from_log_interval(n)), want, tol);
         c.judge_i("Interval::as_duration", json!([n]), run_i(|| Interval::from_log_2(n).as_duration()), want, tol);
     }
+    // the same values as f64 seconds (exactly 2^n for every n) and as core::time::Duration (what
+    // the timer actions carry): exact where 2^n s is a whole number of nanoseconds (n >= -9),
+    // within 1 ns below; n >= 64 does not fit the u64 seconds of core::time::Duration
+    for n in i8::MIN..=i8::MAX {
+        c.evals += 1;
+        c.representable += 1;
+        match catch(|| Interval::from_log_2(n).seconds()) {
+            Ok(v) if v == 2f64.powi(n as i32) => {}
+            Ok(v) => c.push("Interval::seconds", "wrong-value", json!([n]), format!("got {v:e}")),
+            Err(e) => c.push("Interval::seconds", "panic-on-representable", json!([n]), e.signature()),
+        }
+        if n >= 64 {
+            continue;
+        }
+        c.evals += 1;
+        c.representable += 1;
+        let want_ns: u128 = if n >= 0 { 1_000_000_000u128 << n } else if n > -60 { 1_000_000_000u128 >> (-(n as i32)) as u32 } else { 0 };
+        match catch(|| Interval::from_log_2(n).as_core_duration().as_nanos()) {
+            Ok(v) if v == want_ns || (n < -9 && v.abs_diff(want_ns) <= 1) => {}
+            Ok(v) => c.push("Interval::as_core_duration", "wrong-value", json!([n]), format!("got {v} ns, want {want_ns} ns")),
+            Err(e) => c.push("Interval::as_core_duration", "panic-on-representable", json!([n]), e.signature()),
+        }
+    }
 }
 
 /// TimeInterval (wire, 2^-16 ns) <-> Duration through `PortDS` (serde gives every
